@@ -110,6 +110,14 @@ pub fn run(a: &Args) {
             _ => out.violation(&format!("value not preserved for {:?}: {:?}", s, ra_str)),
         }
         out.case(&case, &line);
+        // a value built through the public variants (deserialised, or made by hand): the predicates
+        // answer by the variant, whatever the text looks like
+        {
+            let hand = RemoteAddr::Str(s.clone());
+            if !hand.is_string() || hand.is_socket_addr() || hand.string() != s { out.violation(&format!("RemoteAddr::Str({:?}): is_string()={} is_socket_addr()={} (a Str value is a string whatever its text)", s, hand.is_string(), hand.is_socket_addr())); }
+            if hand.to_remote_addr().unwrap() != RemoteAddr::Str(s.clone()) { out.violation(&format!("RemoteAddr::Str({:?}).to_remote_addr() is not the identity", s)); }
+            out.count("hand_built_str_values");
+        }
         // conversions from socket-address types (lossless)
         if let Some(p) = parsed {
             let via_sa = p.to_remote_addr().unwrap();
